@@ -730,7 +730,7 @@ pub fn get_random_module(&self, source: &mut GenerationSource) -> (r: Result<VfT
 //@arms src/generator/emission.rs Generator::emit_and_process opcode
 //@ret res
 //@ghost Ghost(r): Ghost<RefState>
-//@props C01 C02 C03 C05 C10 C11 C17 C09
+//@props C01 C02 C03 C05 C07 C10 C11 C17 C09
 //@sigsubst Result<()> => Result<(), VfError>
 //@use EMIT_CONTRACT
 //@arm Int | Long | Long1 | Long4 | BinInt | BinInt1 | BinInt2
@@ -809,13 +809,19 @@ pub fn get_random_module(&self, source: &mut GenerationSource) -> (r: Result<VfT
         }
 //@arm Get
 //@subst self.state.memo.keys().copied().collect() => vf_keys(&self.state.memo)
-//@subst keys.sort_unstable() => vf_sort_unstable(&mut keys)
+//@subst? keys.sort_unstable() => vf_sort_unstable(&mut keys)
 //@subst format!("{}\n", index) => vf_fmt_usize_nl(index)
 //@rewrite R14 process_stack_ops self.process_stack_ops($ARGS, Ghost(r), Ghost(RefArg { idx: index as int }))
 //@prelude
         let ghost mut gidx: int = 0;
-//@after 1 vf_sort_unstable(&mut keys)
-                proof { assert(keys@.len() > 0); }
+//@before 1 if !keys.is_empty()
+                proof {
+                    assert(keys@.len() > 0);
+                    // C07: whatever order the hash map enumerated its keys in, the index is chosen from the canonical sequence
+                    assert(is_canon(keys@, self.state.memo@.dom())); // @C07
+                    lemma_canon_unique(keys@, canon(self.state.memo@.dom()), self.state.memo@.dom());
+                    assert(keys@ =~= canon(self.state.memo@.dom())); // @C07
+                }
 //@after 1 let index = keys[
                     proof { assert(keys@.contains(index)); }
 //@before 1 self.process_stack_ops(
@@ -830,15 +836,21 @@ pub fn get_random_module(&self, source: &mut GenerationSource) -> (r: Result<VfT
         }
 //@arm BinGet
 //@subst self.state.memo.keys().filter(|&&k| k < 256).copied().collect() => vf_keys_below(&self.state.memo, 256)
-//@subst valid_indices.sort_unstable() => vf_sort_unstable(&mut valid_indices)
+//@subst? valid_indices.sort_unstable() => vf_sort_unstable(&mut valid_indices)
 //@subst self.mutate_memo_index(index, source).min(255) => vf_min_usize(self.mutate_memo_index(index, source), 255)
 //@rewrite R14 process_stack_ops self.process_stack_ops($ARGS, Ghost(r), Ghost(RefArg { idx: index as int }))
 //@prelude
         let ghost mut gidx: int = 0;
 //@before 1 vf_sort_unstable(&mut valid_indices)
                 proof { assert(r.memo.dom().contains(0)); assert(self.state.memo@.dom().contains(0usize)); assert(valid_indices@.contains(0usize)); }
-//@after 1 vf_sort_unstable(&mut valid_indices)
-                proof { assert(valid_indices@.contains(0usize)); assert(valid_indices@.len() > 0); }
+//@before 1 if !valid_indices.is_empty()
+                proof {
+                    assert(valid_indices@.contains(0usize)); assert(valid_indices@.len() > 0);
+                    let ghost small = self.state.memo@.dom().filter(|k: usize| k < 256);
+                    assert(is_canon(valid_indices@, small)); // @C07
+                    lemma_canon_unique(valid_indices@, canon(small), small);
+                    assert(valid_indices@ =~= canon(small)); // @C07
+                }
 //@after 1 let index = valid_indices[
                     proof { assert(valid_indices@.contains(index)); }
 //@before 1 self.process_stack_ops(
@@ -853,13 +865,19 @@ pub fn get_random_module(&self, source: &mut GenerationSource) -> (r: Result<VfT
         }
 //@arm LongBinGet
 //@subst self.state.memo.keys().copied().collect() => vf_keys(&self.state.memo)
-//@subst keys.sort_unstable() => vf_sort_unstable(&mut keys)
+//@subst? keys.sort_unstable() => vf_sort_unstable(&mut keys)
 //@subst (index as u32).to_le_bytes() => vf_u32_to_le_bytes(index as u32)
 //@rewrite R14 process_stack_ops self.process_stack_ops($ARGS, Ghost(r), Ghost(RefArg { idx: index as int }))
 //@prelude
         let ghost mut gidx: int = 0;
-//@after 1 vf_sort_unstable(&mut keys)
-                proof { assert(keys@.len() > 0); }
+//@before 1 if !keys.is_empty()
+                proof {
+                    assert(keys@.len() > 0);
+                    // C07: whatever order the hash map enumerated its keys in, the index is chosen from the canonical sequence
+                    assert(is_canon(keys@, self.state.memo@.dom())); // @C07
+                    lemma_canon_unique(keys@, canon(self.state.memo@.dom()), self.state.memo@.dom());
+                    assert(keys@ =~= canon(self.state.memo@.dom())); // @C07
+                }
 //@after 1 let index = keys[
                     proof { assert(keys@.contains(index)); }
 //@before 1 self.process_stack_ops(
@@ -874,7 +892,7 @@ pub fn get_random_module(&self, source: &mut GenerationSource) -> (r: Result<VfT
         }
 //@arm Ext1
 //@subst source.gen_u8().saturating_add(1) => vf_sat_add_u8(source.gen_u8(), 1)
-//@subst debug_assert!(code >= 1, "EXT1 code out of range: {}", code) => assert(code >= 1)
+//@subst debug_assert!(code >= 1, "EXT1 code out of range: {}", code) => assert(code >= 1) /* @C04 */
 //@rewrite R14 process_stack_ops self.process_stack_ops($ARGS, Ghost(r), Ghost(RefArg { idx: 0 }))
 //@before 1 Ok(())
         proof {
@@ -886,7 +904,7 @@ pub fn get_random_module(&self, source: &mut GenerationSource) -> (r: Result<VfT
         }
 //@arm Ext2
 //@subst source.gen_u16().saturating_add(1) => vf_sat_add_u16(source.gen_u16(), 1)
-//@subst debug_assert!(code >= 1, "EXT2 code out of range: {}", code) => assert(code >= 1)
+//@subst debug_assert!(code >= 1, "EXT2 code out of range: {}", code) => assert(code >= 1) /* @C04 */
 //@substall code.to_le_bytes() => vf_u16_to_le_bytes(code)
 //@rewrite R14 process_stack_ops self.process_stack_ops($ARGS, Ghost(r), Ghost(RefArg { idx: 0 }))
 //@before 1 Ok(())
@@ -898,7 +916,7 @@ pub fn get_random_module(&self, source: &mut GenerationSource) -> (r: Result<VfT
             assert(self.emit_post(old(self), r, opcode, opcode, RefArg { idx: 0 }, chunk));
         }
 //@arm Ext4
-//@subst debug_assert!(code > 0, "EXT4 code must be > 0, got {}", code) => assert(0 < code <= 0x7fff_ffff)
+//@subst debug_assert!(code > 0, "EXT4 code must be > 0, got {}", code) => assert(0 < code <= 0x7fff_ffff) /* @C04 */
 //@substall code.to_le_bytes() => vf_u32_to_le_bytes(code)
 //@rewrite R14 process_stack_ops self.process_stack_ops($ARGS, Ghost(r), Ghost(RefArg { idx: 0 }))
 //@before 1 Ok(())
@@ -1091,7 +1109,9 @@ pub fn get_random_module(&self, source: &mut GenerationSource) -> (r: Result<VfT
         let ghost h = Generator::hdr_len(ver_num(self.state.version), use_frame);
         proof {
             assert(self.output@ =~= hdr0 + flat(gch));
-            assert(self.state.memo@.len() == 0);
+            assert(self.state.memo@.len() == 0); // @C08
+            assert(self.rel(gr)); // @C08
+            assert(hdr0.len() == h); // @C08 @C05 @C06
         }
 //@loop 1
             invariant
